@@ -12,8 +12,8 @@ import (
 )
 
 func init() {
-	generators["C07"] = func(c *Ctx) { genDkgRuns(c, "C07"); genLargeCommittee(c); genStructuredDealings(c) }
-	generators["C08"] = func(c *Ctx) { genDkgRuns(c, "C08"); genLargeCommittee(c); genStructuredDealings(c) }
+	generators["C07"] = func(c *Ctx) { genDkgRuns(c, "C07"); genLargeCommittee(c); genStructuredDealings(c); genDealerHistories(c) }
+	generators["C08"] = func(c *Ctx) { genDkgRuns(c, "C08"); genLargeCommittee(c); genStructuredDealings(c); genDealerHistories(c) }
 }
 
 type qmsg struct {
@@ -750,6 +750,58 @@ func genStructuredDealings(c *Ctx) {
 					c.Case(fmt.Sprintf("structured-dealing/%s/%s", kind, proto), d.line(), d.answer())
 				}
 			}
+		}
+	}
+}
+
+// genDealerHistories: the honest node under test is the DEALER (node 0 of 3; in the joint protocol it is also a receiver
+// of the two other dealings). Every sequence over {complaint of node 1 against it, complaint of node 2 against it, a
+// complaint of node 1 against node 2, a timeout, the complaint of node 1 as a private message} up to a fixed length is a
+// correspondence case: the same complaint delivered twice (before, across and after the timeouts) must be answered once.
+func genDealerHistories(c *Ctx) {
+	for _, proto := range []string{"fvssq", "joint"} {
+		n, t, me, dealer := 3, 1, 0, 0
+		alphabet := []string{
+			"B:1:" + hx(complaintMsg(0)),
+			"B:2:" + hx(complaintMsg(0)),
+			"B:1:" + hx(complaintMsg(2)),
+			"T",
+			"P:1:" + hx(complaintMsg(0)),
+		}
+		maxLen := 3
+		if c.thorough() {
+			maxLen = 4
+		}
+		var seqs [][]int
+		var rec func(cur []int)
+		rec = func(cur []int) {
+			if len(cur) > 0 {
+				seqs = append(seqs, append([]int{}, cur...))
+			}
+			if len(cur) == maxLen {
+				return
+			}
+			for a := range alphabet {
+				rec(append(cur, a))
+			}
+		}
+		rec(nil)
+		// beyond the full enumeration: the duplicated complaint around both timeouts
+		seqs = append(seqs, []int{3, 0, 0, 1}, []int{3, 0, 1, 0}, []int{0, 3, 3, 0}, []int{3, 0, 3, 0}, []int{3, 3, 0, 0}, []int{3, 1, 0, 1, 0})
+		seed := "S:" + hx(c.bytes(32))
+		for _, sq := range seqs {
+			nd, err := newDkgNode(proto, n, t, me, dealer)
+			if err != nil {
+				panic(err)
+			}
+			nd.call(seed)
+			for _, a := range sq {
+				nd.call(alphabet[a])
+			}
+			nd.call("T")
+			nd.call("T")
+			nd.call("E")
+			c.Case("dealer-histories/"+proto, nd.line(), nd.answer())
 		}
 	}
 }
